@@ -449,6 +449,9 @@ func (d *V2) Apply(op model.Op) (res model.Result) {
 	case "Put":
 		in := &dynamodb.PutItemInput{TableName: aws.String(op.Table), Item: ToV2Item(op.Item),
 			ConditionExpression: strPtrOrNil(op.Cond), ExpressionAttributeNames: v2Names(op.Names), ExpressionAttributeValues: ToV2Item(op.Values)}
+		if op.ReturnValues != "" {
+			in.ReturnValues = types.ReturnValue(op.ReturnValues)
+		}
 		_, err := c.PutItem(ctx, in)
 		if err != nil {
 			return v2CondFail(err)
@@ -460,6 +463,9 @@ func (d *V2) Apply(op model.Op) (res model.Result) {
 		if op.ReturnOnCondFail {
 			in.ReturnValuesOnConditionCheckFailure = types.ReturnValuesOnConditionCheckFailureAllOld
 		}
+		if op.ReturnValues != "" {
+			in.ReturnValues = types.ReturnValue(op.ReturnValues)
+		}
 		out, err := c.UpdateItem(ctx, in)
 		if err != nil {
 			return v2CondFail(err)
@@ -470,6 +476,9 @@ func (d *V2) Apply(op model.Op) (res model.Result) {
 			ConditionExpression: strPtrOrNil(op.Cond), ExpressionAttributeNames: v2Names(op.Names), ExpressionAttributeValues: ToV2Item(op.Values)}
 		if op.ReturnOld {
 			in.ReturnValues = types.ReturnValueAllOld
+		}
+		if op.ReturnValues != "" {
+			in.ReturnValues = types.ReturnValue(op.ReturnValues)
 		}
 		out, err := c.DeleteItem(ctx, in)
 		if err != nil {
